@@ -15,6 +15,8 @@ thread's return values and every store.
 """
 from __future__ import annotations
 
+import sys
+
 import itertools
 import random
 import threading
@@ -176,8 +178,15 @@ class C05(Prop):
         return s.get_debt(), s.get_statistics()["total_consumed"], s.get_state().value
 
     def _snap(self, s):
-        debt, consumed, state = self._pub(s)
-        return f"{s.atp} {s.gtp} {s.nadh} {debt} {consumed} {state}"
+        # the getters are lines of the file under test: keep them out of the line-level scheduler, a snapshot is not a
+        # step of the thread that happens to take it
+        tr = sys.gettrace()
+        sys.settrace(None)
+        try:
+            debt, consumed, state = self._pub(s)
+            return f"{s.atp} {s.gtp} {s.nadh} {debt} {consumed} {state}"
+        finally:
+            sys.settrace(tr)
 
     def _mk_stores(self, specs, setatp, observers=None):
         M = self.M
